@@ -152,7 +152,8 @@ CHECKS = {
              'write phase with deferred errors, read phase outcomes, exit callback, exception path with the non-atomic interrupt check '
              'before disconnect(immediate), finally), reconnects from listeners and exception handlers, servers that accept, refuse or '
              'close. TLC checks AtMostOneInIo, RefusalIsClean, InvalidStateIffActive, DisconnectNeverRaises, SlotsClearedWhenDead, '
-             'IdleMeansConnectable, SuccessorAfterPredecessor and interrupt ~> terminated. The real Connection runs every single-thread '
+             'IdleMeansConnectable, SuccessorAfterPredecessor and interrupt ~> terminated (also for a thread blocked in a read on a '
+             'stalled server: only a shutdown of the read half wakes it; the variant shutting down the write half only must fail). The real Connection runs every single-thread '
              'history <= 4 and thousands of two-thread scenarios with real threads under a token-passing scheduler (virtual lock, '
              'socket with separate read / write halves, select, queue, thread start/join; servers that accept, refuse, disconnect, close '
              'or stall in the middle of a frame); every execution is judged event by event by the contract.',
